@@ -272,6 +272,167 @@ func run(r *core.Run) {
 			}
 		}
 	}
+
+	// ---- 3. the factory-wired chains with real keys ----
+	runChain(r)
+}
+
+var pgOids = map[string]int{"int32": 23, "int64": 20, "str": 25, "bytes": 17}
+
+// runChain: the factory-wired subscriber chains with real keys and real envelopes.
+func runChain(r *core.Run) {
+	rd := r.Rand
+	plains := map[string][][]byte{
+		"int32": {[]byte("0"), []byte("-2147483648"), []byte("2147483647"), []byte("42")},
+		"int64": {[]byte("-9223372036854775808"), []byte("9223372036854775807"), []byte("7")},
+		"str":   {[]byte("hello"), {0xff, 0xfe, 0x00, 0x41}, []byte("naïve ✓ secret-marker-12345")},
+		"bytes": {[]byte("bin\x00\xff secret-marker-67890"), {0, 1, 2, 3}, []byte("\\x41")},
+	}
+	for _, typ := range []string{"int32", "int64", "str", "bytes"} {
+		pols := []policyCase{{"ciphertext", nil}, {"error", nil}, {"empty", nil}, {"default_value", sp(validDefaults(typ)[1])}}
+		for _, pol := range pols {
+			dt, ut, bt := defaultTokens(pol.dflt)
+			effective := pol.onFail
+			if effective == "empty" {
+				effective = "ciphertext"
+			}
+			for _, binaryFmt := range []bool{false, true} {
+				for _, reader := range []string{"owner", "other", "nokeys"} {
+					ps := plains[typ]
+					if !r.Thorough() {
+						ps = ps[:2]
+					}
+					for _, m := range ps {
+						// ---- PostgreSQL ----
+						line := fmt.Sprintf("C19.chain.pg %s %s %s %s %s %s", typ, pol.onFail, dt, fmtName(binaryFmt), reader, core.Hex(m))
+						r.Begin(line, true, "stream:structured", "chain:pg", "reader:"+reader, "type:"+typ, "policy:"+effective, "fmt:"+fmtName(binaryFmt))
+						got := r.Impl(line)
+						var oid int
+						var kind, val, wire string
+						n, _ := fmt.Sscanf(got, "desc %d %s", &oid, &kind)
+						if !r.Check(n == 2, "chain-outcome", "pg chain: "+got) {
+							continue
+						}
+						if kind == "value" {
+							fmt.Sscanf(got, "desc %d value %s wire %s", &oid, &val, &wire)
+						} else {
+							fmt.Sscanf(got, "desc %d "+kind+" wire %s", &oid, &wire)
+						}
+						r.Check(oid == pgOids[typ], "describe-pg", fmt.Sprintf("pg %s: column described with OID %d, declared type has %d", typ, oid, pgOids[typ]))
+						// the model, told whether the chain reveals the value, must predict the delivered bytes
+						reveal := "none"
+						if reader == "owner" {
+							reveal = core.Hex(m)
+						}
+						model := r.ModelOnly(fmt.Sprintf("C19.pg.read %s %s %s %s %s %s %s %s", typ, pol.onFail, dt, ut, bt, fmtName(binaryFmt), reveal, wire))
+						implShape := kind
+						if kind == "value" {
+							implShape = "value " + val + " false"
+						}
+						r.Check(model == implShape, "chain-vs-model", fmt.Sprintf("pg chain %s/%s/%s/%s delivers %q, the model (reveal=%v) predicts %q", typ, effective, fmtName(binaryFmt), reader, implShape, reader == "owner", model))
+						checkChainValue(r, "pg", typ, effective, pol, binaryFmt, reader, m, kind, core.UnHex(orDash(val)))
+
+						// ---- MySQL ----
+						line = fmt.Sprintf("C19.chain.my %s %s %s %s %s %s", typ, pol.onFail, dt, fmtName(binaryFmt), reader, core.Hex(m))
+						r.Begin(line, true, "stream:structured", "chain:my", "reader:"+reader, "type:"+typ, "policy:"+effective, "fmt:"+fmtName(binaryFmt))
+						got = r.Impl(line)
+						var ftype int
+						var rows string
+						if n, _ := fmt.Sscanf(got, "type %d rows %s", &ftype, &rows); !r.Check(n == 2, "chain-outcome", "mysql chain: "+got) {
+							continue
+						}
+						kind = "value"
+						if rows == "encerr" || rows == core.Err {
+							kind = rows
+						}
+						var out []byte
+						if kind == "value" {
+							out = core.UnHex(rows)
+						}
+						checkChainValue(r, "my", typ, effective, pol, binaryFmt, reader, m, kind, out)
+						if kind == "value" {
+							delivered := specEncode("my", typ, binaryFmt, m)
+							if reader != "owner" && effective == "default_value" {
+								dv := []byte(*pol.dflt)
+								if typ == "bytes" {
+									dv, _ = base64.StdEncoding.DecodeString(*pol.dflt)
+								}
+								delivered = specEncode("my", typ, binaryFmt, dv)
+							}
+							if bytes.Equal(out, delivered) {
+								r.Check(ftype == myTypeCodes[typ], "describe-my", fmt.Sprintf("mysql %s: typed value delivered but column described as %d", typ, ftype))
+							} else {
+								r.Check(ftype == 253, "describe-my", fmt.Sprintf("mysql %s: stored value delivered but column described as %d", typ, ftype))
+							}
+						}
+					}
+				}
+			}
+		}
+	}
+	// ---- MySQL result sets whose rows differ in revealability: the column definition is sent once for all rows ----
+	for _, typ := range []string{"int32", "int64"} {
+		for _, binaryFmt := range []bool{false, true} {
+			junk := append([]byte("%%%"), rd.Bytes(20)...)
+			line := fmt.Sprintf("C19.chain.my %s ciphertext none %s owner %s,=%s", typ, fmtName(binaryFmt), core.Hex([]byte("42")), core.Hex(junk))
+			r.Begin(line, true, "stream:boundary", "chain:my-mixed-rows", "fmt:"+fmtName(binaryFmt))
+			got := r.Impl(line)
+			var ftype int
+			var rows string
+			if n, _ := fmt.Sscanf(got, "type %d rows %s", &ftype, &rows); !r.Check(n == 2, "chain-outcome", "mysql chain: "+got) {
+				continue
+			}
+			parts := splitComma(rows)
+			if !r.Check(len(parts) == 2, "chain-outcome", "mysql mixed rows: "+got) {
+				continue
+			}
+			row1 := core.UnHex(parts[0])
+			// every delivered row must be readable under the one column type the client is told
+			okUnderFinal := false
+			if ftype == myTypeCodes[typ] {
+				okUnderFinal = bytes.Equal(row1, specEncode("my", typ, binaryFmt, []byte("42")))
+			} else {
+				okUnderFinal = bytes.Equal(row1, mybase.PutLengthEncodedString([]byte("42")))
+			}
+			r.Check(okUnderFinal, "my-rollback-mixed-rows", fmt.Sprintf("mysql %s %s: first row delivered as %x but the column definition sent afterwards says type %d (second row was rolled back)", typ, fmtName(binaryFmt), row1, ftype))
+		}
+	}
+}
+
+func orDash(s string) string {
+	if s == "" {
+		return "-"
+	}
+	return s
+}
+
+// what a reader may see, judged on the implementation's output alone
+func checkChainValue(r *core.Run, db, typ, effective string, pol policyCase, binaryFmt bool, reader string, m []byte, kind string, out []byte) {
+	if reader == "owner" {
+		want := specEncode(db, typ, binaryFmt, m)
+		r.Check(kind == "value" && bytes.Equal(out, want), "typed-owner-chain", fmt.Sprintf("%s %s %s: owner receives %s %x for %q, want %x", db, typ, fmtName(binaryFmt), kind, out, m, want))
+		return
+	}
+	switch effective {
+	case "error":
+		r.Check(kind == "encerr", "typed-policy-error-chain", fmt.Sprintf("%s %s: policy error but %s reader gets %s %x", db, typ, reader, kind, out))
+	case "default_value":
+		dv := []byte(*pol.dflt)
+		if typ == "bytes" {
+			dv, _ = base64.StdEncoding.DecodeString(*pol.dflt)
+		}
+		want := specEncode(db, typ, binaryFmt, dv)
+		r.Check(kind == "value" && bytes.Equal(out, want), "typed-policy-default-chain", fmt.Sprintf("%s %s: policy default but %s reader gets %s %x", db, typ, reader, kind, out))
+	default:
+		r.Check(kind == "value", "typed-policy-ciphertext-chain", fmt.Sprintf("%s %s: policy ciphertext but %s reader gets %s", db, typ, reader, kind))
+	}
+	// never the plaintext, whole or in part (marker of ≥ 8 bytes)
+	if kind == "value" {
+		r.Check(!bytes.Equal(out, specEncode(db, typ, binaryFmt, m)) || effective == "default_value" && bytes.Equal(specEncode(db, typ, binaryFmt, m), out), "reveal-to-non-owner", fmt.Sprintf("%s %s: %s reader receives the owner's value", db, typ, reader))
+		if i := bytes.Index(m, []byte("secret-marker")); i >= 0 {
+			r.Check(!bytes.Contains(out, []byte("secret-marker")), "partial-reveal", fmt.Sprintf("%s %s: %s reader receives part of the plaintext", db, typ, reader))
+		}
+	}
 }
 
 func fmtName(b bool) string {
